@@ -1328,6 +1328,14 @@ def extra_cases(rng, tier):
                 b = mutate(rng, b)
             ops.append(f"prefix_dec {hx(b[:40])}")
         c20.append(ops)
+    # whole inbound blocks and messages chosen by the remote (prefix + data): the handler recomputes the digest the
+    # prefix names — announced digest lengths below / above the hasher's output included (seeded change C19-d2)
+    from . import c20 as c20p
+    for _ in range(max(6, n // 4)):
+        ops = []
+        for _ in range(12):
+            ops += c20p.op_inbound(rng) if rng.random() < 0.7 else c20p.op_message(rng)
+        c20.append(ops)
     yield "C20", c20
 
 
